@@ -1,5 +1,6 @@
 import Spdc.Model.Num
 import Spdc.Model.Cx
+import Spdc.Model.PMType
 /-!
 # M10a — the coincidence phase-matching integrand (mirrors `src/phasematch/coincidences.rs`)
 
@@ -18,35 +19,7 @@ function `chain` applied to each beam.
 -/
 namespace Spdc.PM
 
-/-- polarisation of a beam -/
-inductive Pol where
-  | o | e
-deriving DecidableEq, Repr
-
-/-- `spdc::PMType` -/
-inductive PMType where
-  | t0_o_oo | t0_e_ee | t1_e_oo | t2_e_eo | t2_e_oe
-deriving DecidableEq, Repr
-
-namespace PMType
-/-- `PMType::inverse` -/
-def inverse : PMType → PMType
-  | t2_e_eo => t2_e_oe
-  | t2_e_oe => t2_e_eo
-  | t => t
-/-- `PMType::signal_polarization` -/
-def signalPol : PMType → Pol
-  | t0_e_ee | t2_e_eo => .e
-  | t0_o_oo | t1_e_oo | t2_e_oe => .o
-/-- `PMType::idler_polarization` -/
-def idlerPol : PMType → Pol
-  | t2_e_oe | t0_e_ee => .e
-  | t0_o_oo | t1_e_oo | t2_e_eo => .o
-/-- `PMType::pump_polarization` -/
-def pumpPol : PMType → Pol
-  | t0_o_oo => .o
-  | _ => .e
-end PMType
+-- `Pol`, `PMType` (with `inverse`, `signalPol`, `idlerPol`, `pumpPol`) are shared with C16: `Spdc/Model/PMType.lean`
 
 /-- what the integrand (and `with_swapped_signal_idler`) reads from one collected beam and its
 waist position -/
